@@ -1,6 +1,6 @@
 """C20 - sorting, chunking and progress/parallel wrappers preserve items and order.
 
-Seven sub-checks, each with the same shape (TLC model -> exported cases -> real code
+Nine sub-checks, each with the same shape (TLC model -> exported cases -> real code
 -> recorded observations -> TLA+ trace module); Python only maps abstract <->
 concrete and records, the specification judges.
 
@@ -25,8 +25,20 @@ concrete and records, the specification judges.
          steps; mechanism variant with a pool kept between calls) -> histories (tlc -simulate), each executed in a
          forked child of its own -> PoolHistTrace.tla (call k = list(map(fn_k, items_k)) in the parent AT THAT TIME)
 
+  sortalias  QuicksortAlias.tla (ALIASING between the two arguments of quicksort_keyvalue as a dimension of the sort cases:
+         separate arrays / sibling columns of one table / the same array twice / the keys a column of the table passed as
+         values; memory model with views, AliasLaw: any program of pair moves leaves through the views what it leaves on
+         separate arrays; deviating mechanisms: pivot by reference, whole-array reordering) -> the real aliased calls in
+         several representations (structured, 2-d, recarray, memmap, list) -> QuicksortTrace.tla through the views
+  chunkworld IsplitWorld.tla (WORLD machine: sessions of isplit / splitarray calls in one process with caller steps
+         scribble(result) and mutarr(argument); WorldInv: every call returns the fresh-world outcome, results handed out
+         change only by their holder's hand; deviating mechanism: a memo handing out its own storage / keyed by identity)
+         -> sessions (tlc -simulate, the ones richest in collisions), each executed in a forked child of its own
+         -> IsplitWorldTrace.tla; a replay re-executes the whole session in one fresh process
+
 The model-level TLC runs of all parts are independent of the real code and of each other: `_prefetch` starts them
-side by side.  `./check C20 --only sort,sortscale,chunk,pbar,pbarhist,pmap,pmaphist` runs a subset (development aid).
+side by side.  `./check C20 --only sort,sortalias,sortscale,chunk,chunkworld,pbar,pbarhist,pmap,pmaphist` runs a subset
+(development aid).
 """
 import array
 import collections
@@ -2177,6 +2189,12 @@ def run(ctx):
         "progress histories: after the wrapped iterable raised, passing the exception on and stopping are both accepted; a pull may "
         "run one item ahead of the consumer (the same weaker reading of 'lazily')",
         "sorts at scale run at the interpreter's default recursion limit (1000): a RecursionError on ordered input is a violation",
+        "aliased key-value sorts: the same array twice and a column of the values table as keys have a defined result (every pair "
+        "(x, x) / every row intact and ordered by its key column); partially overlapping slices (keys[i] and values[i-1] one cell) "
+        "have no reading of 'pairs kept together' and are outside the quantifier",
+        "chunk sessions: results of isplit are the caller's (overwriting them must not change later calls nor other results); "
+        "whether splitarray's chunks are views or copies is not constrained (they are judged against the array at the time of the "
+        "call only); a result that refuses to be overwritten is a stutter step",
     ]
     ctx.trusted_base = ctx.trusted_base + [
         "CPython generator / iterator protocol and concurrent.futures.ProcessPoolExecutor as the substrate the wrappers run on",
